@@ -628,6 +628,11 @@ def protocol_rule(ctx):
         msk = FeV((ne, npg), [bool((e + 2 * p) % 3 != 1) for e in range(ne) for p in range(npg)])
         want = XArray(Of.shape, [(Mf[e, p, i, j] * 2 if msk[e, p] else Of[e, p, i, j]) for e in range(ne) for p in range(npg) for i in range(d) for j in range(d)])
         run(f"np.multiply(field{Mf.shape}, 2, out=field, where=mask field{msk.shape})", lambda Mf=Mf, Of=Of, msk=msk: M.ufunc_call("multiply", (Mf, Q(2)), out=(FeV(Of.shape, list(Of.data)),), where=msk), want, True, f"where:mask-field:{(ne, npg, d)}")
+        # the constant FIRST (1 / field, 2 * field): the mask is a field of points whatever the order and the rank of the operands
+        run(f"np.multiply(2, field{Mf.shape}, out=field, where=mask field{msk.shape})", lambda Mf=Mf, Of=Of, msk=msk: M.ufunc_call("multiply", (Q(2), Mf), out=(FeV(Of.shape, list(Of.data)),), where=msk), want, True, f"where:mask-field:const-first:{(ne, npg, d)}")
+        cv2 = XArray((d,), [Q(3), Q(5)])
+        want_v = XArray(Of.shape, [(cv2[j] * Mf[e, p, i, j] if msk[e, p] else Of[e, p, i, j]) for e in range(ne) for p in range(npg) for i in range(d) for j in range(d)])
+        run(f"np.multiply(constant vector, field{Mf.shape}, out=field, where=mask field{msk.shape})", lambda Mf=Mf, Of=Of, msk=msk, cv2=cv2: M.ufunc_call("multiply", (cv2, Mf), out=(FeV(Of.shape, list(Of.data)),), where=msk), want_v, True, f"where:mask-field:vector-first:{(ne, npg, d)}")
     # a ufunc with two outputs on two fields of the same shape
     Ai = FeV((2, 2, 2), [Q(7 + 3 * k) for k in range(8)])
     Bi = FeV((2, 2, 2), [Q(2 + (k % 3)) for k in range(8)])
